@@ -6,7 +6,7 @@ repetitions with runtime.Gosched load); sorted diagnostics and, for accepted pro
 the compiled bytecode must equal the baseline.  Family "many bodies x shared fresh names" (ids f<i>, corpus files
 fresh_*): hundreds of bodies, groups of k consecutive bodies first-use the same n fresh local names / symbol literals in
 rotated order; every run of such a program happens in a FRESH child process of the harness (the symbol table is
-process-global, a name is fresh only once per process), limits {100, 16, 1} x GOMAXPROCS {default, 4} x repetitions
+process-global, a name is fresh only once per process), (limit, GOMAXPROCS) in {(100, default), (16, default), (1, default), (100, 4)} (thorough: + (16,4), (1,4), (100,2)) x repetitions
 against the limit-1 / GOMAXPROCS-1 child.  Stream c11.race (thorough): the same harness built with
 -race; any data-race report whose stacks touch elk packages gates (key = file:line of the two accesses).
 """
@@ -140,7 +140,7 @@ def run(ctx):
         "of k bodies first-using the same n fresh local names / symbol literals in rotated order, own names as write pressure; "
         "holders module/class/top level; with and without injected type errors) is checked in FRESH child processes (the symbol "
         "table is process-global, so in-process repetitions - and all runs after the in-process baseline of the older programs - "
-        "find every name already interned and cannot observe interning at all) at limits 100/16/1 x GOMAXPROCS default/4 against "
+        "find every name already interned and cannot observe interning at all) at limits 100/16/1 (GOMAXPROCS default, some at 4 and 2) against "
         "the limit-1 child. This is an implementation-level schedule-sampling oracle, not an enumeration: a window that needs a "
         "rarer interleaving than ~300 bodies x ~20 shared names provoke can be missed. The Go scheduler is perturbed, not "
         "controlled: there is no hook inside concurrent.Foreach, so interleavings are sampled, not enumerated. Data-race freedom in "
@@ -157,7 +157,7 @@ def run(ctx):
     h = vlib.build_harness("c11")
     corpus = [os.path.join(vlib.ROOT, l.strip()) for l in open(os.path.join(vlib.ROOT, "corpus", "C11.sched.txt")) if l.strip() and not l.startswith("#")]
     n, reps = ctx.n(40, 500), ctx.n(1, 2)
-    fam, freps = ctx.n(4, 40), ctx.n(1, 3)
+    fam, freps = ctx.n(4, 20), ctx.n(1, 2)
     lines, crashes, err, dump = run_harness(ctx, h, n, reps, ctx.sseed(SCHED), "sched", corpus, extra=",fam=%d,freps=%d" % (fam, freps), fam=fam)
     evaluations, dist = report(ctx, SCHED, lines, crashes, dump)
     if len(lines) + len(crashes) < n + len(corpus) + fam:
@@ -170,15 +170,15 @@ def run(ctx):
                "references), bodies with locals, closures, loops, early returns, symbol literals; every second program has type "
                "errors injected into ~40% of its bodies (bad initialiser, undefined method, wrong argument type, unknown method on "
                "Int); evaluation = one check+compile(+run) of a program at one (limit, GOMAXPROCS, repetition) setting compared "
-               "with the limit-1 run; PLUS the family 'many bodies x shared fresh names': 240-420 (thorough: up to 900) independent "
+               "with the limit-1 run; PLUS the family 'many bodies x shared fresh names': 160-320 (thorough: up to 900) independent "
                "bodies in a module / class / at top level, groups of 2-6 consecutive bodies first-use the same 8-24 fresh local "
                "names and/or symbol literals in rotated order plus 0-6 names of their own, every fourth program with injected "
                "type errors; Int bodies are summed, symbol bodies of one group compared with == at run time; each evaluation of "
-               "a family program (and of the corpus files fresh_*) is a FRESH child process (limits 100/16/1 x GOMAXPROCS "
-               "default/4 x repetitions, compared with the limit-1 GOMAXPROCS-1 child); non-trivial = distinct program",
+               "a family program (and of the corpus files fresh_*) is a FRESH child process ((limit, GOMAXPROCS) in (100,default) (16,default) (1,default) (100,4), "
+               "thorough also (16,4) (1,4) (100,2), x repetitions, compared with the limit-1 GOMAXPROCS-1 child); non-trivial = distinct program",
                [{"program": k, "descriptor": v[0], "observed": v[1][:120]} for k, v in (list(lines.items())[:3] + [kv for kv in lines.items() if kv[0].startswith("f")][:2])],
                dict(dist, programs=len(lines), limits=[1, 2, 4, 16, 100], gomaxprocs=[1, 2, 16], repetitions=reps,
-                    fresh_process_programs=nfam, fresh_limits=[100, 16, 1], fresh_gomaxprocs=["default", 4], fresh_repetitions=freps))
+                    fresh_process_programs=nfam, fresh_settings=(["100/default", "16/default", "1/default", "100/4"] + ([] if ctx.quick() else ["16/4", "1/4", "100/2"])), fresh_repetitions=freps))
     if not ctx.quick():
         hr = vlib.build_harness("c11", race=True)
         nr = 60
